@@ -104,9 +104,33 @@ def containers():
         out.append(chunked(mt, [[], [0x61, 0x62], [0x63]], [0, 1, 2]))
     return out
 
+def wide_heads():
+    """NON-EMPTY arrays, maps and tags whose count / tag number is written in every argument width (incl. the non-shortest
+    4- and 8-byte forms), and definite strings with a payload under 4- / 8-byte length arguments: a head reader that behaves
+    differently depending on how much input follows the head (a wide load, a look-ahead) needs exactly these"""
+    out = []
+    one, two = [0x01], [0x02]
+    for w in (1, 2, 4, 8):
+        for n in (1, 2, 3):
+            e = Enc().add_head(head(4, n, w))
+            for i in range(n):
+                e.add_head([i + 1])
+            out.append(e)
+            e = Enc().add_head(head(5, n, w))
+            for i in range(n):
+                e.add_head([i + 1]); e.add_head([0x20 + i])
+            out.append(e)
+        for tv in (1, 24, 55799):
+            if tv < 2 ** (8 * w):
+                out.append(Enc().add_head(head(6, tv, w)).add_head(one))
+        for mt in (2, 3):
+            for n in (1, 2, 9):
+                e = Enc().add_head(head(mt, n, w)); e.add_raw([0x61 + (i % 26) for i in range(n)]); out.append(e)
+    return out
+
 def enumerated(depth=2):
     """every major type x argument width x definite/indefinite x nesting position, bounded"""
-    level0 = leaf_encs() + containers()
+    level0 = leaf_encs() + containers() + wide_heads()
     out = list(level0)
     cur = SIMPLE_LEAVES + containers()
     for _ in range(depth):
